@@ -54,6 +54,7 @@ type lsheet struct {
 	name   string
 	cells  []lcell // in writing order
 	merges []string
+	noDim  bool // this sheet is written without <dimension>
 }
 
 type wbopts struct {
@@ -111,7 +112,7 @@ func withWS(lc lcell, ws string) lcell {
 func build(sheets []lsheet, o wbopts) *xlsxw.Workbook {
 	wb := &xlsxw.Workbook{ReverseSST: o.reverseSST, PadSST: o.padSST, AbsoluteTargets: o.abs, NoStyles: o.noStyles, Deflate: o.deflate}
 	for i, s := range sheets {
-		xs := xlsxw.Sheet{Name: s.name, Merges: s.merges, NoDimension: o.noDim}
+		xs := xlsxw.Sheet{Name: s.name, Merges: s.merges, NoDimension: o.noDim || s.noDim}
 		for _, c := range s.cells {
 			xs.Cells = append(xs.Cells, xlsxw.Cell{Ref: c.addr, Kind: c.kind, Value: c.value, Formula: c.formula, ExplicitT: c.explicitT})
 		}
@@ -437,6 +438,7 @@ func run(e *harness.Env) {
 		"(merge) every subset of <=3 addresses (incl. none) x merged ranges {A1:B2 | B1:C1 | A2:A3 | B1:C1+A2:A3} x value in the last covered cell y/n x rotating kind vectors (8 thorough, 4 quick) x in/reversed; " +
 		"(ws) a line break / tab inside a string value at every position of every subset of <=3 of 5 addresses x 5 string kinds x in/reversed; " +
 		"(sheets) two sheets: every pair of subsets of <=2 of 5 addresses (incl. empty) x rotating kinds (8 / 3) x 4 package layouts (standard, part numbers swapped against declared order, absolute targets, custom relationship ids); " +
+		"(xsheet) two sheets, each independently x merge layout {none, A1:B2, B1:C1, A2:A3, B1:C1+A2:A3} x every subset of <=2 of the addresses inside those regions (5 quick / 7 thorough, incl. the empty sheet) x rotating kinds (1 / 3) x <dimension> in both / only one sheet, plus 6^3 three-sheet workbooks: nothing of one sheet may show in another; " +
 		"(sst) shared / rich shared strings with reversed, padded and reversed+padded string tables, one and two sheets; " +
 		"(variants) t=\"n\", formula-cached number/bool/error/text, no <dimension>, no styles part, deflated members, styled blank cells before/after/below the content. " +
 		"distinct = distinct descriptors; non-trivial = everything except a workbook whose only cell is A1 (any kind) and the single-letter columns of the codec"
@@ -459,7 +461,7 @@ func run(e *harness.Env) {
 		name string
 		f    func(*harness.Env, string)
 	}{{"codec", func(e *harness.Env, _ string) { codecSpace(e) }}, {"cells", cellsSpace}, {"merge", mergeSpace}, {"ws", wsSpace},
-		{"sheets", sheetsSpace}, {"sst", sstSpace}, {"variant", variantSpace}} {
+		{"sheets", sheetsSpace}, {"xsheet", xsheetSpace}, {"sst", sstSpace}, {"variant", variantSpace}} {
 		if want(sp.name) {
 			sp.f(e, tmp)
 		}
@@ -485,6 +487,17 @@ func baseDesc(space string, sheets []lsheet, order string, o wbopts, extra ...st
 		if len(s.merges) > 0 {
 			merge = strings.Join(s.merges, ",")
 		}
+	}
+	if space == "xsheet" { // per sheet, in declared order
+		var ms []string
+		for _, s := range sheets {
+			if len(s.merges) > 0 {
+				ms = append(ms, strings.Join(s.merges, ","))
+			} else {
+				ms = append(ms, "-")
+			}
+		}
+		merge = strings.Join(ms, "|")
 	}
 	b.WriteString(" order=" + order + " merge=" + merge + " stray=" + yn(stray) + " irich=" + yn(irich) + " ws=" + ws)
 	for i := 0; i+1 < len(extra); i += 2 {
@@ -715,6 +728,92 @@ func sheetsSpace(e *harness.Env, tmp string) {
 			}
 		}
 	}
+}
+
+// ---- (xsheet) per-sheet state must not leak between sheets ---------------------------------------------
+//
+// Every sheet of a workbook is decoded on its own: nothing of one sheet (merged regions, dimension,
+// rows, cells, string indices) may show in another. Each sheet independently takes a merge layout
+// (none or one of the four) and a cell subset over addresses that lie inside the *other* sheets' possible
+// regions (top-left and covered positions of A1:B2, B1:C1, A2:A3) plus one outside (C3), including the
+// empty sheet, so a later sheet can be smaller than an earlier one in every respect (no <mergeCells>,
+// no <dimension>, fewer rows, fewer cells, fewer string-table uses). Each sheet is judged against its own map.
+func xsheetSpace(e *harness.Env, tmp string) {
+	type cfg struct {
+		merges []string
+		cells  []string
+	}
+	layouts := [][]string{nil, {"A1:B2"}, {"B1:C1"}, {"A2:A3"}, {"B1:C1", "A2:A3"}}
+	alphabet := []string{"A1", "B1", "A2", "B2", "A3"}
+	if e.Thorough() {
+		alphabet = []string{"A1", "B1", "A2", "B2", "A3", "C1", "C3"}
+	}
+	var cfgs []cfg
+	for _, m := range layouts {
+		for _, sub := range subsets(len(alphabet), 0, 2) {
+			c := cfg{merges: m}
+			for _, i := range sub {
+				c.cells = append(c.cells, alphabet[i])
+			}
+			cfgs = append(cfgs, c)
+		}
+	}
+	mkSheets := func(base int, cs []cfg, noDim []bool) []lsheet {
+		var sheets []lsheet
+		n := 0
+		for si, c := range cs {
+			var cells []lcell
+			for _, a := range c.cells {
+				cells = append(cells, mk(si, a, rotKinds(base, n)))
+				n++
+			}
+			sheets = append(sheets, lsheet{name: fmt.Sprintf("S%d", si+1), cells: cells, merges: c.merges, noDim: noDim[si]})
+		}
+		return sheets
+	}
+	emit := func(base int, cs []cfg, noDim []bool, dims string) {
+		sheets := mkSheets(base, cs, noDim)
+		out := "xsheet" + fmt.Sprint(len(cs))
+		for _, c := range cs {
+			if len(c.merges) > 0 {
+				out += "-m"
+			} else {
+				out += "-p"
+			}
+		}
+		runCase(e, tmp, caseSpec{desc: baseDesc("xsheet", sheets, "in", wbopts{}, "dims", dims, "base", fmt.Sprint(base)), sheets: sheets, nontrivial: true, outcome: out})
+	}
+	for _, base := range bases2(e) {
+		for _, c1 := range cfgs {
+			for _, c2 := range cfgs {
+				if len(c1.cells)+len(c2.cells) == 0 && base != bases2(e)[0] {
+					continue
+				}
+				emit(base, []cfg{c1, c2}, []bool{false, false}, "both")
+				// <dimension> present in only one of the sheets (thorough: everywhere; quick: small sheets)
+				if e.Thorough() || (len(c1.cells) <= 1 && len(c2.cells) <= 1) {
+					emit(base, []cfg{c1, c2}, []bool{false, true}, "s1-only")
+					emit(base, []cfg{c1, c2}, []bool{true, false}, "s2-only")
+				}
+			}
+		}
+	}
+	// three sheets: what sheet 1 declares must not reach sheet 3 either (and sheet 2 may be empty)
+	small := []cfg{{nil, nil}, {nil, []string{"B1", "A2"}}, {[]string{"A1:B2"}, []string{"A1"}}, {[]string{"B1:C1", "A2:A3"}, []string{"B1", "A3"}}, {[]string{"A2:A3"}, nil}, {nil, []string{"B2", "A3"}}}
+	for _, c1 := range small {
+		for _, c2 := range small {
+			for _, c3 := range small {
+				emit(0, []cfg{c1, c2, c3}, []bool{false, false, false}, "both")
+			}
+		}
+	}
+}
+
+func bases2(e *harness.Env) []int {
+	if e.Thorough() {
+		return []int{0, 3, 6}
+	}
+	return []int{0}
 }
 
 // ---- (sst) string-table layouts -----------------------------------------------------------------------------
